@@ -158,6 +158,22 @@ def gen_cases(tier, seed):
                 cfg = dict(multipart_threshold=16, multipart_chunksize=8, io_chunksize=4, max_request_concurrency=2)
                 cases.append({'seed': rng.randrange(1 << 30), 'min_part': 8, 'config': cfg, 'transfers': [t], 'family': 'C-window',
                               'yield': {'p': rng.choice([0.0, 0.05]), 'window': dict(wdw, nth=nth, target=0)}})
+    # (C2b) the manager as a whole is cancelled from another user thread exactly while a transfer is being started (its submission task has
+    # checked that the transfer is not done, and has not marked it queued yet); the canceller itself is held once more between recording
+    # the cancellation and announcing it, until the starting thread has run as far as it can
+    for kind, extra in gen.KINDS:
+        for rep in range(2 if quick else 8):
+            n = rng.choice([1, 2, 3])
+            ts = [dict({'kind': kind, 'size': rng.choice([5, 20])}, **extra)] + [dict({'kind': k2, 'size': rng.choice([5, 20])}, **e2) for (k2, e2) in rng.sample(gen.KINDS, n - 1)]
+            # (one submission thread, and the cancel lands when the LAST transfer is being started: every transfer has been handed to the
+            # manager by then - handing one to a manager that was shut down is the caller's error, not a case)
+            cfg = dict(multipart_threshold=16, multipart_chunksize=8, io_chunksize=4, max_request_concurrency=2, max_submission_concurrency=1)
+            cases.append({'seed': rng.randrange(1 << 30), 'min_part': 8, 'config': cfg, 'transfers': ts, 'family': 'C-start-vs-manager-cancel',
+                          'yield': {'p': rng.choice([0.0, 0.05]),
+                                    'window': {'file': 'tasks.py', 'text': 'self._transfer_coordinator.set_status_to_queued()', 'name': 'before-queued',
+                                               'nth': n - 1, 'how': 'manager_cancel', 'target': 0, 'wait': 0.3},
+                                    'more_windows': [{'file': 'futures.py', 'text': 'if should_announce_done:', 'name': 'cancel-before-announce',
+                                                      'nth': rng.choice([0, 0, 1]), 'wait': 0.6}]}})
     # (C3) systematic line windows: preempt the nth thread reaching a statement of the concurrency-relevant functions until
     # everybody else has run as far as they can (lost wake-ups), or cancel concurrently while it sits there
     from .. import windows
